@@ -39,8 +39,9 @@ type Harness struct {
 	StageATimeout int             // ms: limit for the unbounded SMT-string attempt
 	Havoc         map[string]bool // functions replaced by fresh results (harness-declared over-approximation)
 	Ideal         bool            // replace first-party CFB cipher by its ideal model (flow harnesses)
-	AbstractLen   bool // ideal hash outputs without fixed length
-	Race          bool // replay under the race detector
+	Compose       bool            // compose the request traces of this harness pairwise under a symbolic scheduler
+	AbstractLen   bool            // ideal hash outputs without fixed length
+	Race          bool            // replay under the race detector
 	Guess         bool            // try guess-and-check models first (large strings)
 	NoValidate    bool            // no native validation samples (harness depends on uncontrollable native state, e.g. wall-clock nanoseconds)
 	Upgrade       bool            // try to upgrade bounded unsat verdicts of obligations to unbounded ones
@@ -278,6 +279,8 @@ func (w *World) load() error {
 								}
 							case "ideal":
 								h.Ideal = true
+							case "compose":
+								h.Compose = true
 							case "abstractlen":
 								h.AbstractLen = true
 							case "race":
